@@ -1319,3 +1319,95 @@ Proof.
     + rewrite !holder_of_upd_same. reflexivity.
     + rewrite !(holder_of_upd_other _ b c) by exact Hcb. apply Ho; assumption.
 Qed.
+
+(** * PART 3 — non-vacuity: concrete states satisfying the hypotheses used above *)
+Definition hub_ex : hub :=
+  mkHub (mkHubConfig 10 10 (Some A_disp) (Some A_reg) (Some A_bsei) (Some A_stsei) None (Some A_reward))
+        (mkHubState D D 0 0 0 0 0 0) (mkHubParams 30 usei 100 0 0 uusd (Some false))
+        (mkBatch 1 0 0) 10 [] [] [].
+(** a world whose reward contract holds [b] uusd *)
+Definition w_ex (b : N) : world :=
+  mkWorld (Some hub_ex) None None None None None (credit (empty_env 100) A_reward uusd b).
+
+(** two holders (3 and 4 bSei), 10 coins delivered and indexed: index = floor(10e18 / 7) *)
+Definition r_ex : reward :=
+  mkReward 10 A_hub uusd A_swap [uatom] 1428571428571428571 7 10
+           [(20, mkHolder 3 0 0); (21, mkHolder 4 0 0)] 10.
+
+Ltac le_compute := vm_compute; let X := fresh "X" in intro X; discriminate X.
+
+Example rinv_nonvacuous :
+  RInv r_ex 10 /\ RBound r_ex /\ D <= acc r_ex 20 /\ acc r_ex 20 / D = 4 /\
+  acc r_ex 20 mod D = 285714285714285713 /\ dust r_ex = 3.
+Proof.
+  split; [split; [unfold RCore; split; [le_compute|]; split; [reflexivity|]; split|le_compute]|].
+  - repeat constructor; le_compute.
+  - repeat constructor; cbn; intuition discriminate.
+  - split; [split; le_compute|]. split; [le_compute|]. split; [reflexivity|]. split; reflexivity.
+Qed.
+
+(** the claim of holder 20 in that state: 4 whole coins, fraction kept *)
+Example claim_nonvacuous :
+  reward_execute (w_ex 10) r_ex A_reward 20 (RClaim None)
+  = Some (claim_state r_ex 20, [MBank 20 [(uusd, 4)]]) /\
+  holder_of (claim_state r_ex 20) 20 = mkHolder 3 1428571428571428571 285714285714285713 /\
+  rw_prev (claim_state r_ex 20) = 6.
+Proof. split; [vm_compute; reflexivity | split; vm_compute; reflexivity]. Qed.
+
+(** a five-step contract-level trace: two increases, a delivery, an index update, a claim *)
+Example creach_nonvacuous :
+  exists r bank g,
+    creach (cinit 10 A_hub uusd A_swap [uatom] 0) (r, bank, g) /\
+    E1c (r, bank, g) /\
+    g_delivered g = 10 /\ g_claimed g = 4 /\ g_updates g = 1 /\ bank = 6 /\ rw_prev r = 6 /\
+    rw_total r = 7 /\ dust r = 3.
+Proof.
+  do 3 eexists. split.
+  - eapply CR_step.
+    + eapply CR_step.
+      * eapply CR_step.
+        -- eapply CR_step.
+           ++ eapply CR_step.
+              ** apply CR_init.
+              ** split; le_compute.
+              ** eapply (CS_exec _ _ _ (w_ex 0) A_reward A_bsei (RInc 20 3)); vm_compute; reflexivity.
+           ++ split; le_compute.
+           ++ eapply (CS_exec _ _ _ (w_ex 0) A_reward A_bsei (RInc 21 4)); vm_compute; reflexivity.
+        -- split; le_compute.
+        -- apply (CS_deliver _ _ _ 10).
+      * split; le_compute.
+      * eapply (CS_exec _ _ _ (w_ex 10) A_reward A_disp RUpdateIndex); vm_compute; reflexivity.
+    + split; le_compute.
+    + eapply (CS_exec _ _ _ (w_ex 10) A_reward 20 (RClaim None)); vm_compute; reflexivity.
+  - vm_compute. repeat split; intro X; discriminate X.
+Qed.
+
+(** (c): an increase for holder 20 and a claim by holder 21 in state [r_ex] *)
+Example ops_commute_nonvacuous :
+  RCore r_ex /\ holder_op (RInc 20 5) = true /\ holder_op (RClaim None) = true /\
+  target A_bsei (RInc 20 5) <> target 21 (RClaim None) /\
+  rw_total r_ex + inc_amt (RInc 20 5) + inc_amt (RClaim None) <= U128MAX /\
+  exists r1 r12,
+    reward_execute (w_ex 10) r_ex A_reward A_bsei (RInc 20 5) = Some (r1, []) /\
+    reward_execute (w_ex 10) r1 A_reward 21 (RClaim None) = Some (r12, [MBank 21 [(uusd, 5)]]).
+Proof.
+  split; [apply rinv_nonvacuous|]. split; [reflexivity|]. split; [reflexivity|].
+  split; [intro X; discriminate X|]. split; [le_compute|].
+  do 2 eexists. split; vm_compute; reflexivity.
+Qed.
+
+(** (d): 7 bSei in account 20, against 3 + 4 bSei in accounts 30 and 31 *)
+Definition r_one : reward :=
+  mkReward 10 A_hub uusd A_swap [uatom] 5 7 0 [(20, mkHolder 7 2 9)] 10.
+Definition r_two : reward :=
+  mkReward 10 A_hub uusd A_swap [uatom] 5 7 0 [(30, mkHolder 3 2 4); (31, mkHolder 4 2 5)] 10.
+
+Example split_sim_nonvacuous :
+  SplitSim r_one r_two 20 30 31 /\ acc r_one 20 = 30 /\ acc r_two 30 = 13 /\ acc r_two 31 = 17.
+Proof.
+  split; [|repeat split; reflexivity].
+  unfold SplitSim. conjs.
+  - unfold split_rel. repeat split; reflexivity.
+  - intros b H1 H2 H3. unfold holder_of, r_one, r_two. cbn [rw_holders get].
+    apply N.eqb_neq in H1, H2, H3. unfold eqbA. rewrite H1, H2, H3. reflexivity.
+Qed.
